@@ -67,6 +67,8 @@ def _check_H(ctx, H, held):
     ctx.require(sum(held["degree"].aslist()) == sum(held["size"].aslist()), "degrees do not sum to sizes")
     ctx.require(nets.same(H.degree(), deg), "network-level degree() differs")
     ctx.require(nets.same(held["nattr"].asdict(), {n: H._node_attr[n] for n in nodes}), "held attrs stat is stale")
+    ctx.require(nets.same(held["multi"].asdict(), {n: {"degree": deg[n]} for n in nodes}), "held multi-stat is stale")
+    ctx.require(eq_seq(held["emulti"].aslist(), [[size[e]] for e in edges]), "held edge multi-stat is stale")
     for k in (0, 1, 2):
         dk = {n: len([e for e in node[n] if len(edge[e]) == k + 1]) for n in nodes}
         ctx.require(nets.same(held["degree_k"][k].asdict(), dk), "degree(order=k) differs from its definition")
@@ -111,7 +113,10 @@ def live(ctx, p):
             "nodes": net.nodes, "edges": net.edges, "degree": net.nodes.degree, "size": net.edges.size,
             "order": net.edges.order, "nattr": net.nodes.attrs,
             "degree_k": {k: net.nodes.degree(order=k) for k in (0, 1, 2)},
+            "multi": net.nodes.multi(["degree"]), "emulti": net.edges.multi(["size"]),
         }
+        held["multi"].asdict()
+        held["emulti"].aslist()
         opf = ops.OPS_H[p["op"]]
     else:
         net = nets.build_D(ctx, _shapeD(p["shape"]), attrs=True)[0]
